@@ -45,6 +45,51 @@ SUMMARY = {
  "C20-B": ("goal is_satisfied falls back to distance_goal(state) <= threshold when the callback raises AttributeError", "AttributeError raised inside the user's is_satisfied on a goal that defines distance_goal"),
 }
 
+
+# second round (fresh sub-agents, told which ideas round 1 had already used); stored as <ID>-C / <ID>-D
+SUMMARY2 = {
+ "C01-C": ("CompoundStateSpace::interpolate skips zero-weight subspaces: the motion check validates the parent's value of that component while the stored node carries the sample's", "SE2/SE3/compound space with a zero-weight component and a checker that depends on it"),
+ "C01-D": ("RRTStar::check_motion returns true (instead of is_valid(to)) when the motion needs <= 1 step", "extension no longer than one checking step: small max_distance or coarse resolution fraction"),
+ "C02-C": ("PRM::solve passes the start through space.enforce_bounds before putting it at the head of the path", "out-of-bounds or non-canonical start state"),
+ "C02-D": ("RRTStar::solve stops on goal.distance_goal(q) <= EPSILON instead of goal.is_satisfied(q)", "a goal whose predicate is stricter than 'distance to the region is zero' (half disc)"),
+ "C03-C": ("RRT* memoises choose-parent motion checks by neighbour-list position but looks them up by tree index: a rewired edge is never motion-checked", "one of the first tree nodes rewired while the neighbour list is not [0,1,2,...]"),
+ "C03-D": ("SO2 distance 'simplified' to |d| / 2pi-|d|: negative for raw angles > 2 pi apart, so check_motion computes 0 steps", "un-normalised SO2 state set through the public field (start 3pi/2)"),
+ "C04-C": ("SO2StateSpace::new checks the clamped interval but stores the caller's unclamped upper bound", "angular interval whose upper end is given beyond pi, e.g. (1, 4), route ending near pi"),
+ "C04-D": ("SO3 interpolate drops the hemisphere sign in the nlerp branch (as C05-A), steering near the cone boundary extrapolates out of the cone", "bounded SO3, step < 0.063 rad, nearby rotations of opposite quaternion sign"),
+ "C05-C": ("SO2 interpolate takes the short way across the seam only when the bounds cover the full circle", "bounded SO2 interval wider than pi, node and sample at opposite ends"),
+ "C05-D": ("RRT* find_neighbours is called with the raw sample instead of the steered state", "search radius >= 2 x step, far sample, choose-parent/rewire edge on the solution branch"),
+ "C06-C": ("RRT-Connect goal-root re-draw counts only sampler errors as attempts", "goal region entirely invalid: solve(T) never returns, for any T"),
+ "C06-D": ("RRT::check_motion returns true without validating `to` when the motion needs <= 1 step", "step <= 0.1 x longest valid segment: the tree walks through walls to a sealed goal"),
+ "C07-C": ("PRM::solve keeps goal indices in a HashSet and a new 'start connects directly to a goal milestone' shortcut iterates it", "start directly connectable to >= 2 goal milestones: result depends on per-instance hash order"),
+ "C07-D": ("RRT-Connect goal-root draw factored into a helper that, inside solve(), no longer sees the taken generator and falls back to rand::rng()", "goal region partly invalid and the root drawn in setup invalid"),
+ "C08-C": ("PRM caches goal-milestone indices in solve; set_problem_definition does not clear the cache", "setup(P1), construct, solve, set_problem_definition(P2), solve: path into P1's goal"),
+ "C08-D": ("CompoundStateSpace::sample_uniform rewritten with flat_map drops a failing component's Err and returns a state missing that component", "compound/SE2/SE3 with an unsampleable component (SE2StateSpace::new(w, None)): planners panic"),
+ "C09-C": ("RealVector distance rewritten over chunks of four pairs the leftover tail of state1 with the head of state2", "dimension >= 5 and not a multiple of 4"),
+ "C09-D": ("Compound distance 'skip zero-weight subspace' uses break instead of continue", "a zero weight in a non-final position"),
+ "C10-C": ("Compound interpolate skips components whose from/to sub-distance is exactly 0: the output keeps its old content there", "pair sharing one component exactly and an output buffer that differs from `from`"),
+ "C10-D": ("SO3 nlerp branch renormalises only when |norm^2 - 1| > 1e-6", "rotations closer than ~4e-3 rad, 0 < t < 1"),
+ "C11-C": ("SO3 enforce_bounds correction loop multiplies by reached/max instead of max/reached", "small cone (0.02-0.06 rad), state just outside within 0.063 rad of the centre (nlerp branch)"),
+ "C11-D": ("SO2 enforce_bounds PI-representative branch tests upper > PI (dead: the constructor clamps to PI)", "interval reaching PI but not -PI, state exactly at +-PI"),
+ "C12-C": ("SO3State::normalise overflow branch divides w by the stale infinite norm", "component above ~1.3e154 and w != 0"),
+ "C12-D": ("RealVectorStateSpace::new compares bounds with total_cmp", "(x, NaN), (-NaN, x), (-0.0, 0.0)"),
+ "C13-C": ("CompoundStateSpace::enforce_bounds returns early when satisfies_bounds(state)", "components that satisfy their bounds but are not canonical (un-normalised angle, non-unit quaternion)"),
+ "C13-D": ("CompoundStateSpace::interpolate calls enforce_bounds on a result that violates the bounds", "interpolant leaving the bounds (endpoint outside a box, SO2 short arc leaving a restricted interval)"),
+ "C14-C": ("SO3 sample_uniform fast path for cones < 0.3 rad draws the axis with polar = PI*u instead of acos(1-2u)", "bounded SO3 with max_angle < 0.3 rad: axis direction not uniform"),
+ "C14-D": ("R^n sampling draws raw words in batches of 8 but refills only at i == 0: coordinate i >= 8 reuses the word of coordinate i-8", "dimension >= 9: marginals uniform, coordinates 8 apart perfectly correlated"),
+ "C15-C": ("RRT* choose-parent updates min_cost before the motion check: a blocked cheaper neighbour lowers the recorded cost; a later rewire closes a parent-link cycle", "detour round an obstacle, blocked cheap neighbour, one more nearby sample"),
+ "C15-D": ("RRT::check_motion returns true for motions of <= 1 step (as C06-D)", "sample within 0.1 L of a tree node, just inside an obstacle"),
+ "C16-C": ("RRT calls enforce_bounds on the steered state", "steered point leaves the bounds (bounded SO2 interval crossed through the seam)"),
+ "C16-D": ("RRT-Connect: when the goal tree grows and its new node satisfies the goal, the loop continues without connecting the start tree", "goal tree smaller (after a blocked connect) and its new node inside the goal region"),
+ "C17-C": ("RRT* find_neighbours loop bound len-1: the most recent node is never a candidate", "previous iteration's node within the radius and cheaper / rewirable"),
+ "C17-D": ("RRT* choose-parent updates min_cost before the motion check (as C15-C)", "cheaper but blocked neighbour within the radius"),
+ "C18-C": ("PRM goal-milestone cache keyed only by roadmap size, never reset", "second solve with a different goal, or a rebuilt roadmap of the same size"),
+ "C18-D": ("PRM BFS tests the goal when a neighbour is discovered, not when a milestone is popped: start connections are never tested", "goal milestone within the connection radius of the start"),
+ "C19-C": ("Python RealVectorStateSpace.set_longest_valid_segment_fraction returns early for fractions outside (0,1] (the core clamps > 1 to 1)", "fraction above 1 set before the problem definition is built, wall thinner than one step"),
+ "C19-D": ("PyRrtStar::new passes max_distance as search_radius in the Compound arm only", "compound-space RRT* with search_radius != max_distance"),
+ "C20-C": ("PyGoal::is_satisfied calls the user's method a second time when it raised", "transient raise at the call whose state really satisfies the goal"),
+ "C20-D": ("RealVector validity checker memoises the last query: key stored before the Python call, verdict only after success", "a state on which the callback failed queried again immediately: stale True"),
+}
+
 def parse_results(files):
     res = {}
     cur = None
@@ -64,7 +109,50 @@ def parse_results(files):
                 res[cur][m.group(1)] = {"rc": int(m.group(2)), "signature": sig}
     return res
 
+def build(summary, base, vmap, res, rows, first):
+    for mid, (what, needs) in sorted(summary.items()):
+        pid, v = mid.split("-")
+        src = f"{base}/{pid}-out"
+        sv = vmap.get(v, v)
+        dst = f"/verif/seeded/{mid}"
+        if not os.path.exists(f"{src}/{sv}.patch.diff"):
+            if os.path.exists(f"{dst}/meta.json"):
+                m = json.load(open(f"{dst}/meta.json"))
+                rows.append((mid, what, needs, m["caught_by_quick_checks"], m["silent"], m["inconclusive"]))
+            continue
+        os.makedirs(dst, exist_ok=True)
+        shutil.copy(f"{src}/{sv}.patch.diff", f"{dst}/patch.diff")
+        demo = glob.glob(f"{src}/{sv}.demo.*")[0]
+        shutil.copy(demo, f"{dst}/demo" + os.path.splitext(demo)[1])
+        if os.path.exists(f"{src}/notes.md"):
+            shutil.copy(f"{src}/notes.md", f"{dst}/agent_notes.md")
+        confirm = open(f"{src}/{sv}.confirm.txt").read().strip().splitlines() if os.path.exists(f"{src}/{sv}.confirm.txt") else []
+        r = res.get(f"{pid}-{sv}", {})
+        caught = sorted(k for k, x in r.items() if x["rc"] == 1)
+        silent = sorted(k for k, x in r.items() if x["rc"] == 0)
+        other = sorted(k for k, x in r.items() if x["rc"] not in (0, 1))
+        meta = {
+            "id": mid, "breaks_property": pid, "change": what, "needs_to_manifest": needs,
+            "written_by": "fresh sub-agent given only the property text, the one-line ideas already used in round 1, and a scratch worktree of /repo",
+            "confirmed_in_scratch_worktree": confirm,
+            "how_confirmed": "tools/confirm_mutant.sh: worktree of /repo HEAD; demo passes without the patch; patch applies; `cargo test -p oxmpl --offline` (70 tests) passes with it; demo fails with it",
+            "checks_run": {k: x for k, x in sorted(r.items())},
+            "caught_by_quick_checks": caught, "silent": silent, "inconclusive": other,
+            "caught_by_own_property_check": pid in caught,
+            "first_run_before_strengthening": first.get(f"{pid}-{sv}", {}),
+            "own_check_missed_it_at_first": first.get(f"{pid}-{sv}", {}).get(pid, {}).get("rc") != 1,
+            "how_run": "tools/run_mutant.sh <patch> <IDs>: git -C /repo apply; ./check <ID> quick; git -C /repo checkout -- .",
+        }
+        json.dump(meta, open(f"{dst}/meta.json", "w"), indent=1)
+        rows.append((mid, what, needs, caught, silent, other))
+
+
 def main():
+    rows2 = []
+    if os.path.exists("/verif/seeded/logs/round2_quick_checks.txt"):
+        res2 = parse_results(["/verif/seeded/logs/round2_quick_checks.txt", "/verif/seeded/logs/round2_after_strengthening.txt"])
+        first2 = parse_results(["/verif/seeded/logs/round2_quick_checks.txt"])
+        build(SUMMARY2, "/tmp/mut2", {"C": "A", "D": "B"}, res2, rows2, first2)
     res = parse_results(["/verif/seeded/logs/quick_checks_final.txt", "/verif/seeded/logs/quick_checks_after_strengthening.txt"])
     rows = []
     for mid, (what, needs) in sorted(SUMMARY.items()):
@@ -72,6 +160,10 @@ def main():
         src = f"/tmp/mut/{pid}-out"
         dst = f"/verif/seeded/{mid}"
         if not os.path.exists(f"{src}/{v}.patch.diff"):
+            # scratch sources already removed: keep what was stored
+            if os.path.exists(f"{dst}/meta.json"):
+                m = json.load(open(f"{dst}/meta.json"))
+                rows.append((mid, what, needs, m["caught_by_quick_checks"], m["silent"], m["inconclusive"]))
             continue
         os.makedirs(dst, exist_ok=True)
         shutil.copy(f"{src}/{v}.patch.diff", f"{dst}/patch.diff")
@@ -96,6 +188,7 @@ def main():
         }
         json.dump(meta, open(f"{dst}/meta.json", "w"), indent=1)
         rows.append((mid, what, needs, caught, silent, other))
+    rows = rows + rows2
     with open("/verif/seeded/SUMMARY.md", "w") as f:
         f.write("# Seeded changes written by sub-agents and the outcome of the quick checks\n\n")
         f.write("| id | change | needs | caught by (quick tier) | silent (run, not expected to fire unless listed first) |\n|---|---|---|---|---|\n")
